@@ -31,6 +31,8 @@ NOT covered: insertion ORDER of oset / dict (membership view only); owner regist
 are leaves without effect on the maps); non-int tid kinds of pop_tensor.
 """
 
+import ast
+
 import z3
 
 from vf.pyvc import (And, Contract, If, Implies, Loop, NS, Not, Or, PyRaise, Ref, REGISTRY, SymIter, Unsupported, Z,
@@ -136,15 +138,11 @@ class FSet:
         self.ref, self.field = ref, field
 
 
-class SetVal:
-    """a freshly built oset value (not yet stored anywhere): membership array + ghost cardinality"""
+class ConcatV:
+    """toolz.concat(xs) of a tuple of osets"""
 
-    def __init__(self, arr, n):
-        self.arr, self.n = arr, n
-
-    @property
-    def truth(self):
-        return self.n != 0
+    def __init__(self, parts):
+        self.parts = tuple(parts)
 
 
 class TensorV:
@@ -283,8 +281,9 @@ def oset_dictcomp(con, cx, n):
         return NotImplemented
     g = n.generators[0]
     src = cx.ev(g.iter)
-    if not isinstance(src, DH):
+    if not isinstance(src, (DH, PySetV)):
         return NotImplemented
+    src_keys = src.arr if isinstance(src, PySetV) else cx.fields(src.ref)["keys"]
     e = z3.Int(cx._name("k!elem"))
     saved = dict(cx.env)
     cx.assign(g.target, e)
@@ -296,7 +295,7 @@ def oset_dictcomp(con, cx, n):
     cx.env = saved
     if key is not e or val is not None:
         raise Unsupported("dict comprehension that is not a key filter")
-    body = And(sel(cx.fields(src.ref)["keys"], e), *conds)
+    body = And(sel(src_keys, e), *conds)
     return DH(new_dict(cx, z3.Lambda([e], Z(body))))
 
 
@@ -386,10 +385,20 @@ class Base(Contract):
         case = case or self.case_of_call(cx, a)
         a.__dict__["_cx"] = cx
         name = self.target.split("::")[-1]
-        for c in self.facts(cx, a, case):
-            cx.assume(c)
-        for lab, c in self.pre(cx, a, case).items():
-            cx.oblige(f"call-pre@{node.lineno}:{name}:{lab}", "call-pre", c, node.lineno)
+        # the callee's contract is a statement for EVERY key: it is used (pre obliged, post assumed) at each key the
+        # calling contract reasons about (default: the arbitrary key X only)
+        keys = getattr(cx.contract, "inst_keys", lambda cx: [X])(cx)
+
+        def at(c, k):
+            return c if k is X else z3.substitute(Z(c), (X, k))
+        self.prepare_call(cx, a, keys)
+        for k in keys:
+            for c in self.facts(cx, a, case):
+                cx.assume(at(c, k))
+        for ki, k in enumerate(keys):
+            for lab, c in self.pre(cx, a, case).items():
+                cx.oblige(f"call-pre@{node.lineno}:{name}:{lab}" + ("" if ki == 0 else f":at-key{ki}"), "call-pre",
+                          at(c, k), node.lineno)
         pre = {k: dict(v) for k, v in cx.heap.items()}
         for ref, fields in self.modifies(a, case):
             for fl in fields:
@@ -398,14 +407,21 @@ class Base(Contract):
         saved = cx.pre_heap
         cx.pre_heap = pre
         try:
-            for lab, c in self.ensures(a, res, cx, case).items():
-                cx.assume(c)
+            for k in keys:
+                for lab, c in self.ensures(a, res, cx, case).items():
+                    cx.assume(at(c, k))
+                if any(isinstance(o, Ref) and o.kind == "TN" for o in a.__dict__.values()):
+                    for c in inv_facts(cx.fields(a.self), k):
+                        cx.assume(c)
         finally:
             cx.pre_heap = saved
         return res
 
+    def prepare_call(self, cx, a, keys):
+        pass
+
     def fresh_result(self, cx, a, case):
-        return None
+        raise Unsupported(f"{self.target}: not usable as a callee")
 
     # -- attribute reads
     def attr(self, cx, base, attr, node):
@@ -441,15 +457,15 @@ class Base(Contract):
             return args[0][args[1]]
         if name == "__setitem__" and isinstance(args[0], MapH) and args[0].w in ("tag", "ind"):
             h, x, v = args
-            if not isinstance(v, SetVal):
-                raise Unsupported("map entry set to a non-literal oset")
+            if not is_oset(v):
+                raise Unsupported("map entry set to a non-oset")
             f = cx.fields(h.ref)
             w = h.w
-            cx.assume(card_axioms(v.arr))
-            cx.assume(v.n == card(v.arr))
-            f[w + "m"] = z3.Store(f[w + "m"], x, v.arr)
+            arr = okeys(cx, v)
+            cx.assume(card_axioms(arr))
+            f[w + "m"] = z3.Store(f[w + "m"], x, arr)
             f[w + "d"] = z3.Store(f[w + "d"], x, TRUE)
-            f[w + "c"] = z3.Store(f[w + "c"], x, Z(v.n))
+            f[w + "c"] = z3.Store(f[w + "c"], x, card(arr))  # ghost cardinality of the stored oset
             cx.ghost[("gen", h.ref.oid, w)] = cx.ghost.get(("gen", h.ref.oid, w), 0) + 1
             return None
         if name == "__setitem__" and isinstance(args[0], MapH) and args[0].w == "tensor":
@@ -485,8 +501,6 @@ class Base(Contract):
         if name == "__len__" and isinstance(args[0], SetH):
             h = args[0]
             return sel(h.live()[h.w + "c"], h.key)
-        if name == "__len__" and isinstance(args[0], SetVal):
-            return args[0].n
         if name in (".add", ".discard") and isinstance(args[0], SetH):
             h, t = args
             f = h.live()
@@ -525,15 +539,21 @@ class Base(Contract):
         return NotImplemented
 
     def mk_oset(self, cx, args, node):
+        """oset(it) for the literal forms the carriers use.  LEAF (oset.__init__ = dict.fromkeys): holds exactly the items"""
         if not args or (isinstance(args[0], tuple) and len(args[0]) == 0):
-            return SetVal(EMPTY, z3.IntVal(0))
-        v = args[0]
-        if isinstance(v, tuple) and len(v) == 1:
-            return SetVal(add1(EMPTY, v[0]), z3.IntVal(1))
-        if isinstance(v, MapH) and v.w == "tensor":
-            arr = cx.fields(v.ref)["tdom"]
-            return SetVal(arr, card(arr))
-        raise Unsupported(f"oset({v!r})")
+            arr = EMPTY
+        elif isinstance(args[0], tuple) and len(args[0]) == 1:
+            arr = add1(EMPTY, args[0][0])
+            cx.assume(card_add(EMPTY, args[0][0]))
+        elif isinstance(args[0], MapH) and args[0].w == "tensor":
+            arr = cx.fields(args[0].ref)["tdom"]  # iterating a dict yields its keys
+        elif isinstance(args[0], ConcatV):
+            arr = U(*[okeys(cx, o) for o in args[0].parts]) if args[0].parts else EMPTY
+        else:
+            raise Unsupported(f"oset({args[0]!r})")
+        cx.assume(card_axioms(arr))
+        cx.assume(card_axioms(EMPTY))
+        return new_oset(cx, keys=arr)
 
 
 # ================================================================================================
@@ -551,8 +571,18 @@ class TagPrim(Base):
         cx.assume(n >= 0)
         return {"self": new_tn(cx), self.PARAM: KSeq(z3.Int("s!" + self.PARAM), n), "tid": cx.Int("tid"), "_cx": cx}
 
+    def fresh_result(self, cx, a, case):
+        return None
+
     def seq(self, a):
         return a[self.PARAM]
+
+    def prepare_call(self, cx, a, keys):
+        s = a[self.PARAM]
+        if is_oset(s):  # the sequence is an oset: LEAF oset iteration (exactly the members, each once)
+            a.__dict__[self.PARAM] = oset_iter(cx, s, keys_at=keys)
+        elif not isinstance(s, KSeq):
+            raise Unsupported(f"{self.PARAM} = {s!r}")
 
     def pre(self, cx, a, case):
         return inv_map(cx.fields(a.self), self.W, X)
@@ -588,7 +618,7 @@ class TagPrim(Base):
 
     @property
     def loops(self):
-        return {0: Loop(None, self.inv, facts=self.loop_facts)}
+        return {0: Loop(f"for {self.PARAM[:-1]} in {self.PARAM}", self.inv, facts=self.loop_facts)}
 
 
 @register
@@ -762,28 +792,27 @@ class UnlinkInds(IndPrim):
         return d
 
     def replay(self, model):
-        """native replay of the `repeats-allowed` failure: a label carried twice by ONE tensor stays classified by the
-        number of tensors, not of occurrences"""
+        """native replay of the `repeats-allowed` failures (the solver's models all have this shape: after the unlink
+        some OTHER tensor still carries the label twice, or the unlinked tensor itself carried it twice): the real
+        primitive is run on the smallest such networks and the cached classification compared with a fresh scan"""
         import numpy as np
         import quimb.tensor as qtn
 
-        def I(k, default):
-            try:
-                return int(str(model.get(k, default)))
-            except (TypeError, ValueError):
-                return default
-        others = 2
-        A = qtn.Tensor(np.ones((2,) * others), inds=("a",) * others, tags="A")
-        B = qtn.Tensor(np.ones((2,)), inds=("a",), tags="B")
-        tn = qtn.TensorNetwork([A, B])
-        tid = next(iter(tn.tag_map["B"]))
-        tn._unlink_inds(("a",), tid)  # the primitive, with the label tuple of tensor B
-        tn.tensor_map.pop(tid)
-        fresh = qtn.TensorNetwork(tn.tensors)
-        got = dict(inner=sorted(tn._inner_inds), outer=sorted(tn._outer_inds))
-        exp = dict(inner=sorted(fresh._inner_inds), outer=sorted(fresh._outer_inds))
-        return dict(call="TensorNetwork([Tensor(inds=('a','a')), Tensor(inds=('a',))])._unlink_inds(('a',), tid_of_second)",
-                    observed=got, fresh_scan=exp, reproduced=got != exp)
+        out = []
+        for name, shapes, victim in (("other tensor carries 'a' twice: [T(a,a), T(a)], unlink the second", (2, 1), 1),
+                                     ("the unlinked tensor carries 'a' twice: [T(a,a)], unlink it", (2,), 0)):
+            ts = [qtn.Tensor(np.ones((2,) * k), inds=("a",) * k, tags=f"T{j}") for j, k in enumerate(shapes)]
+            tn = qtn.TensorNetwork(ts)
+            tid = next(iter(tn.tag_map[f"T{victim}"]))
+            t = tn.tensor_map.pop(tid)
+            tn._unlink_tags(t.tags, tid)
+            tn._unlink_inds(t.inds, tid)  # the primitive under contract, called as pop_tensor calls it
+            fresh = qtn.TensorNetwork(tn.tensors)
+            got = dict(inner=sorted(tn._inner_inds), outer=sorted(tn._outer_inds), ind_map=sorted(tn.ind_map))
+            exp = dict(inner=sorted(fresh._inner_inds), outer=sorted(fresh._outer_inds), ind_map=sorted(fresh.ind_map))
+            out.append(dict(scenario=name, observed=got, fresh_scan=exp, differs=got != exp))
+        return dict(call="TensorNetwork._unlink_inds(t.inds, tid) on networks with a label repeated on one tensor",
+                    scenarios=out, reproduced=any(o["differs"] for o in out))
 
 
 # ================================================================================================
@@ -874,7 +903,7 @@ class NextTid(Base):
 
     @property
     def loops(self):
-        return {0: Loop(None, self.inv, facts=self.loop_facts,
+        return {0: Loop("while self._tid_counter in self.tensor_map", self.inv, facts=self.loop_facts,
                         decreases=lambda v: BOUND(v.cx.fields(v.self)["tdom"]) - v.cx.fields(v.self)["_tid_counter"])}
 
 
@@ -1042,7 +1071,7 @@ class OsetOp(Base):
     mode = "new"
     returns_self = False
     variants = ("1",)  # kinds of `others`: "0", "1", "2", "3", "alias" (the receiver itself), "iter", "oset+iter"
-    floor = 3
+    floor = 2
     param = "others"  # name of the vararg (or of the single `other`)
 
     def cases(self):
@@ -1115,7 +1144,7 @@ class OsetOp(Base):
                 fr.append(okeys(cx, o) == okeys(cx, o, pre=True))
         d["frame-receiver-and-arguments-untouched" if self.mode == "new" else "frame-arguments-untouched"] = And(*fr)
         if any(isinstance(o, KSeq) for o in self.others(a)):
-            d.pop("content")  # iterables of symbolic length: stated at the arbitrary element only
+            d.pop("content", None)  # iterables of symbolic length: stated at the arbitrary element only
         return d
 
     def apply(self, cx, a, node, case=None):
@@ -1138,7 +1167,7 @@ class OsetOp(Base):
         return a.self if self.returns_self else None
 
 
-def oset_op(name, mode, spec, variants=("1",), param="others", returns_self=False, floor=3, doc=""):
+def oset_op(name, mode, spec, variants=("1",), param="others", returns_self=False, floor=2, doc=""):
     cls = type("Oset_" + name, (OsetOp,), dict(target=f"{UT}::oset.{name}", mode=mode, variants=variants, param=param,
                                                 returns_self=returns_self, floor=floor, __doc__=doc,
                                                 spec=lambda self, S, O, a: spec(S, O, a)))
@@ -1204,6 +1233,8 @@ def _no_others(self, a):
 
 for _c in (Oset_add, Oset_discard):
     _c.inputs = _k_inputs
+    _c.others = _no_others
+for _c in (Oset_copy, Oset_clear):
     _c.others = _no_others
 
 
@@ -1288,6 +1319,7 @@ class OsetLen(OsetQuery):
 
     target = f"{UT}::oset.__len__"
     variants = ("0",)
+    others = _no_others
 
     def value_ok(self, cx, a, r, S):
         return {"len-is-cardinality": Z(r) == card(S), "len>=0": Z(r) >= 0}
@@ -1303,6 +1335,7 @@ class OsetContains(OsetQuery):
 
     target = f"{UT}::oset.__contains__"
     variants = ("0",)
+    floor = 2
     param = "x"
 
     def inputs(self, cx, case):
@@ -1361,3 +1394,292 @@ class OsetFromDict(OsetFromDictPrivate):
         if not isinstance(a.d, DH):
             raise Unsupported("from_dict of a non-dict")
         return cx.new_obj("oset", d=new_dict(cx, cx.fields(a.d.ref)["keys"]))
+
+
+# ================================================================================================
+# _modify_tensor_tags / _modify_tensor_inds : re-key exactly one tid
+# ================================================================================================
+
+
+class ModifyBase(Base):
+    W = "tag"
+    floor = 8
+
+    def inputs(self, cx, case):
+        return {"self": new_tn(cx), "old": new_oset(cx, "old"), "new": new_oset(cx, "new"), "tid": cx.Int("tid"), "_cx": cx}
+
+    def link_key(self, cx, a):
+        """the label in the arbitrary position J of the enumeration of new - old (where _link_inds' precondition
+        `tid not yet linked` has to be shown)"""
+        return seq_at(iter_of(z3.SetDifference(okeys(cx, a.new, pre=True), okeys(cx, a.old, pre=True))), J)
+
+    def inst_keys(self, cx):
+        return [X] if self.W == "tag" else [X, self.link_key(cx, NS(cx.old.__dict__))]
+
+    def inv_at(self, f, k):
+        d = dict(inv_map(f, self.W, k))
+        if self.W == "ind":
+            d.update(inv_io(f, k))
+        return d
+
+    def pre(self, cx, a, case):
+        f = cx.fields(a.self)
+        d = {}
+        saved = cx.pre_heap
+        cx.pre_heap = cx.heap
+        try:
+            keys = [X] if self.W == "tag" else [X, self.link_key(cx, a)]
+            for ki, k in enumerate(keys):
+                sfx = "" if ki == 0 else "-at-linked-label-J"
+                for lab, c in self.inv_at(f, k).items():
+                    d[lab + sfx] = c
+                d["old-is-what-tid-is-linked-under" + sfx] = sel(f[self.W + "m"], k, a.tid) == sel(okeys(cx, a.old), k)
+        finally:
+            cx.pre_heap = saved
+        return d
+
+    def facts(self, cx, a, case):
+        f = cx.fields(a.self)
+        saved = cx.pre_heap
+        cx.pre_heap = cx.heap
+        try:
+            keys = [X] if self.W == "tag" else [X, self.link_key(cx, a)]
+        finally:
+            cx.pre_heap = saved
+        out = []
+        for k in keys:
+            out += inv_facts(f, k)
+        return out
+
+    def ensures(self, a, r, cx, case):
+        f, p = cx.fields(a.self), cx.pre(a.self)
+        for c in inv_facts(f, X):
+            cx.assume(c)
+        w = self.W
+        O, N = sel(okeys(cx, a.old, pre=True), X), sel(okeys(cx, a.new, pre=True), X)
+        pm = sel(p[w + "m"], X)
+        d = {"returns-None": r is None,
+             "entry-rekeyed-for-exactly-tid": sel(f[w + "m"], X) == If(N, add1(pm, a.tid), del1(pm, a.tid)),
+             "card": sel(f[w + "c"], X) == sel(p[w + "c"], X) - If(And(O, Not(N)), 1, 0) + If(And(N, Not(O)), 1, 0),
+             "frame-other-fields": frame(f, p, [k for k in MAPF if k not in (TAGF if w == "tag" else INDF)]),
+             "old-and-new-untouched": And(*[And(cx.fields(o)["d"].oid == cx.pre(o)["d"].oid,
+                                               okeys(cx, o) == okeys(cx, o, pre=True)) for o in (a.old, a.new)])}
+        d.update(self.inv_at(f, X))
+        return d
+
+
+@register
+class ModifyTensorTags(ModifyBase):
+    """_modify_tensor_tags(old, new, tid): afterwards tid is linked under exactly the tags in `new`"""
+
+    target = f"{TNC}._modify_tensor_tags"
+
+
+@register
+class ModifyTensorInds(ModifyBase):
+    """_modify_tensor_inds(old, new, tid): the same for labels, with inner/outer re-classified (domain: no label twice)"""
+
+    target = f"{TNC}._modify_tensor_inds"
+    W = "ind"
+    floor = 20
+
+
+# ================================================================================================
+# selection: _get_tids_from, and the two combiners oset_union / oset_intersection
+# ================================================================================================
+
+allin = z3.Function("allin", MAP, INT, INT, INT, BOOL)  # (map, seq id, tid, i): tid in the entries of the first i keys
+anyin = z3.Function("anyin", MAP, INT, INT, INT, BOOL)  # (map, seq id, tid, i): tid in some entry of the first i keys
+AllPresent = z3.Function("AllPresent", INT, SET, BOOL)  # (seq id, dom): every key of the sequence is in dom
+
+
+class EntrySeq:
+    """tuple(xmap[x] for x in xs): the entries of the keys of a sequence of symbolic length"""
+
+    def __init__(self, h, s, m):
+        self.h, self.s, self.m = h, s, m
+
+    @property
+    def truth(self):
+        return self.s.length != 0
+
+
+@register
+class GetTidsFrom(Base):
+    """_get_tids_from(xmap, xs, which): exactly the intersection ('all') / union ('any') of the entries of the keys xs,
+    or its complement within tensor_map ('!all' / '!any'); no key -> empty selection (as coded, also for 'all');
+    KeyError iff some key is absent or `which` is not one of the four.  With (I2)/(I3) this IS: selection returns
+    exactly the tensors that carry all / any of the labels / tags."""
+
+    target = f"{TNC}._get_tids_from"
+    floor = 4
+
+    def cases(self):
+        return [NS(name=f"map={w},which={wh}", w=w, which=wh) for w in ("tag", "ind")
+                for wh in ("all", "any", "!all", "!any", "bogus")]
+
+    def inputs(self, cx, case):
+        tn = new_tn(cx)
+        return {"self": tn, "xmap": MapH(tn, case.w), "xs": new_oset(cx, "xs"), "which": case.which, "_cx": cx}
+
+    def attr(self, cx, base, attr, node):
+        if base is None and attr in ("oset_intersection", "oset_union"):
+            return ("fn", attr)
+        return super().attr(cx, base, attr, node)
+
+    def call(self, cx, name, args, kwargs, node):
+        if name == "__genexp__":
+            n = args[0]
+            g = n.generators[0]
+            src = cx.ev(g.iter)
+            if not (is_oset(src) and isinstance(n.elt, ast.Subscript) and isinstance(g.target, ast.Name) and not g.ifs
+                    and isinstance(n.elt.slice, ast.Name) and n.elt.slice.id == g.target.id):
+                raise Unsupported("generator that is not `map[x] for x in <oset>`")
+            h = cx.ev(n.elt.value)
+            if not (isinstance(h, MapH) and h.w in ("tag", "ind")):
+                raise Unsupported("generator over a non-map")
+            s = oset_iter(cx, src)
+            f = cx.fields(h.ref)
+            # map[x] raises KeyError at the first absent key
+            if not cx.decide(AllPresent(s.sid, f[h.w + "d"]), node.lineno):
+                raise PyRaise("KeyError", node.lineno)
+            return EntrySeq(h, s, f[h.w + "m"])
+        if name == "tuple" and args and isinstance(args[0], EntrySeq):
+            return args[0]
+        if name in ("combine", "oset_intersection", "oset_union") and args and isinstance(args[0], EntrySeq):
+            fn = cx.env.get("combine") if name == "combine" else ("fn", name)
+            if not (isinstance(fn, tuple) and fn[0] == "fn"):
+                raise Unsupported("combine is not one of the two combiners")
+            es = args[0]
+            t = z3.Int("t!bound")
+            if fn[1] == "oset_intersection":
+                # LEAF (proved for 1, 2, 3 sets below; trusted for symbolic length): needs a non-empty sequence
+                cx.oblige(f"call-pre@{node.lineno}:oset_intersection:non-empty", "call-pre", es.s.length >= 1, node.lineno)
+                arr = z3.Lambda([t], allin(es.m, es.s.sid, t, es.s.length))
+            else:
+                arr = z3.Lambda([t], anyin(es.m, es.s.sid, t, es.s.length))
+            return new_oset(cx, keys=arr)
+        return super().call(cx, name, args, kwargs, node)
+
+    def ensures(self, a, r, cx, case):
+        f, p = cx.fields(a.self), cx.pre(a.self)
+        if not is_oset(r):
+            return {"returns-oset": False}
+        S = okeys(cx, a.xs, pre=True)
+        sid, n = iter_of(S), card(S)
+        m = p[case.w + "m"]
+        base = {"all": And(n > 0, allin(m, sid, T, n)), "any": And(n > 0, anyin(m, sid, T, n))}.get(case.which.lstrip("!"))
+        if base is None:
+            return {"invalid-which-raises": False}
+        exp = And(sel(p["tdom"], T), Not(base)) if case.which.startswith("!") else base
+        return {"selection-at-arbitrary-tid": sel(okeys(cx, r), T) == exp,
+                "all-keys-were-present": AllPresent(sid, p[case.w + "d"]),
+                "result-is-a-new-object": r.oid != a.xs.oid and cx.fields(r)["d"].oid != cx.pre(a.xs)["d"].oid,
+                "frame-network-untouched": frame(f, p, MAPF),
+                "frame-xs-untouched": And(cx.fields(a.xs)["d"].oid == cx.pre(a.xs)["d"].oid, okeys(cx, a.xs) == S)}
+
+    def ensures_raise(self, a, exc, cx, case):
+        f, p = cx.fields(a.self), cx.pre(a.self)
+        if exc != "KeyError":
+            return {f"no-raise-{exc}": False}
+        S = okeys(cx, a.xs, pre=True)
+        return {"KeyError-only-if-key-absent-or-invalid-which": Or(case.which == "bogus", Not(AllPresent(iter_of(S), p[case.w + "d"]))),
+                "frame-network-untouched": frame(f, p, MAPF)}
+
+
+class Combiner(Base):
+    """oset_union(xs) / oset_intersection(xs) on a tuple of 0..3 osets (fixed arity: structure-bounded)"""
+
+    floor = 2
+    OP = staticmethod(U)
+
+    def cases(self):
+        return [NS(name=f"n={k}", n=k) for k in (0, 1, 2, 3)]
+
+    def inputs(self, cx, case):
+        return {"xs": tuple(new_oset(cx, f"x{k}") for k in range(case.n)), "_cx": cx}
+
+    def call(self, cx, name, args, kwargs, node):
+        if name == "concat" and isinstance(args[0], (tuple, list)) and all(is_oset(o) for o in args[0]):
+            return ConcatV(args[0])  # LEAF toolz.concat: the items of all parts
+        return super().call(cx, name, args, kwargs, node)
+
+    def apply(self, cx, a, node, case=None):
+        """call-site use: the specification applied constructively"""
+        if not (isinstance(a.xs, (tuple, list)) and all(is_oset(o) for o in a.xs)):
+            raise Unsupported("combiner on a sequence that is not a fixed tuple of osets")
+        if not a.xs:
+            if "ValueError" in self.raises:
+                raise PyRaise("ValueError", node.lineno)
+            return new_oset(cx, keys=EMPTY)
+        return new_oset(cx, keys=self.OP(*[okeys(cx, o) for o in a.xs]))
+
+    def ensures(self, a, r, cx, case):
+        if not is_oset(r):
+            return {"returns-oset": False}
+        Os = [okeys(cx, o, pre=True) for o in a.xs]
+        d = {"result-is-a-new-object": all(r.oid != o.oid and cx.fields(r)["d"].oid != cx.pre(o)["d"].oid for o in a.xs),
+             "frame-arguments-untouched": And(*[And(cx.fields(o)["d"].oid == cx.pre(o)["d"].oid,
+                                                    okeys(cx, o) == okeys(cx, o, pre=True)) for o in a.xs])}
+        d["content"] = okeys(cx, r) == (self.OP(*Os) if Os else EMPTY)
+        return d
+
+
+@register
+class OsetUnionFn(Combiner):
+    target = f"{TC}::oset_union"
+
+
+@register
+class OsetIntersectionFn(Combiner):
+    target = f"{TC}::oset_intersection"
+    OP = staticmethod(Isect)
+    raises = {"ValueError": lambda a: len(a.xs) == 0}
+
+
+# ================================================================================================
+# provider: exhaustive sanity check of the trusted fsets axiom instances and of the two iteration leaves
+# ================================================================================================
+
+
+def provider_fsets(tier):
+    """fdx: (a) the ground axioms of `card` used above hold for true cardinality on every subset of a 3-element
+    universe; (b) the leaves `iterating an oset / a dict yields exactly its members, each once` and
+    `oset(it) holds exactly the items of it` hold for the REAL oset on every sequence over that universe of length <= 3"""
+    import itertools
+    import time
+
+    from vf.framework import ObResult
+    from quimb.utils import oset as real_oset
+
+    out = []
+    Uv = (0, 1, 2)
+    t0 = time.time()
+    bad = []
+    for k in range(4):
+        for S in itertools.combinations(Uv, k):
+            S = frozenset(S)
+            if not (len(S) >= 0 and ((len(S) == 0) == (S == frozenset()))):
+                bad.append(("card>=0 / zero-iff-empty", sorted(S)))
+            for t in Uv:
+                if len(S | {t}) != len(S) + (0 if t in S else 1):
+                    bad.append(("card-add", sorted(S), t))
+                if len(S - {t}) != len(S) - (1 if t in S else 0):
+                    bad.append(("card-discard", sorted(S), t))
+    out.append(ObResult("contracts/c02_maps.py::fsets::card-axioms-on-3-element-universe", "fdx",
+                        "discharged" if not bad else "failed", "exhaustive", time.time() - t0, function="fsets::card",
+                        model=dict(counterexample=bad[:3]) if bad else None, engine="fdx"))
+    t0 = time.time()
+    bad = []
+    for n in range(4):
+        for seq in itertools.product(Uv, repeat=n):
+            o = real_oset(seq)
+            items = list(o)
+            if set(items) != set(seq) or len(items) != len(set(items)) or len(o) != len(set(seq)) or \
+                    any((x in o) != (x in seq) for x in Uv):
+                bad.append(seq)
+    out.append(ObResult("quimb/utils.py::oset::iteration-and-constructor-leaves", "fdx",
+                        "discharged" if not bad else "failed", "exhaustive", time.time() - t0,
+                        function="quimb/utils.py::oset.__iter__", model=dict(counterexample=bad[:3]) if bad else None,
+                        engine="fdx"))
+    return out
